@@ -367,8 +367,59 @@ func resolveCallee(v ssa.Value) *ssa.Function {
 	case *ssa.MakeClosure:
 		return v.Fn.(*ssa.Function)
 	case *ssa.UnOp:
+		if fv, ok := v.X.(*ssa.FreeVar); ok {
+			return resolveFreeVar(fv)
+		}
 		a, ok := v.X.(*ssa.Alloc)
 		if !ok || a.Referrers() == nil {
+			return nil
+		}
+		return resolveAllocCallee(a)
+	}
+	return nil
+}
+
+// resolveFreeVar: a captured variable of function type that is assigned
+// exactly once (with a function or closure) in the enclosing function.
+func resolveFreeVar(fv *ssa.FreeVar) *ssa.Function {
+	fn := fv.Parent()
+	par := fn.Parent()
+	if par == nil {
+		return nil
+	}
+	idx := -1
+	for i, f := range fn.FreeVars {
+		if f == fv {
+			idx = i
+		}
+	}
+	if idx < 0 {
+		return nil
+	}
+	var res *ssa.Function
+	for _, b := range par.Blocks {
+		for _, in := range b.Instrs {
+			mc, ok := in.(*ssa.MakeClosure)
+			if !ok || mc.Fn != ssa.Value(fn) || idx >= len(mc.Bindings) {
+				continue
+			}
+			a, ok := mc.Bindings[idx].(*ssa.Alloc)
+			if !ok {
+				return nil
+			}
+			r := resolveAllocCallee(a)
+			if r == nil || (res != nil && res != r) {
+				return nil
+			}
+			res = r
+		}
+	}
+	return res
+}
+
+func resolveAllocCallee(a *ssa.Alloc) *ssa.Function {
+	{
+		if a.Referrers() == nil {
 			return nil
 		}
 		var only *ssa.Function
@@ -383,9 +434,20 @@ func resolveCallee(v ssa.Value) *ssa.Function {
 				only = resolveCallee(r.Val)
 			case *ssa.UnOp, *ssa.DebugRef:
 			case *ssa.MakeClosure:
-				// captured by another closure: still only assigned by stores we see
-				// in this function unless that closure assigns it; be conservative
-				return nil
+				// captured by a closure: fine as long as that closure never stores to it
+				cf := r.Fn.(*ssa.Function)
+				for i, bnd := range r.Bindings {
+					if bnd != ssa.Value(a) || i >= len(cf.FreeVars) {
+						continue
+					}
+					if fvr := cf.FreeVars[i].Referrers(); fvr != nil {
+						for _, u := range *fvr {
+							if st, ok := u.(*ssa.Store); ok && st.Addr == ssa.Value(cf.FreeVars[i]) {
+								return nil
+							}
+						}
+					}
+				}
 			default:
 				return nil
 			}
